@@ -154,6 +154,7 @@ def make_transport_class():
             self.connect_suspends = connect_suspends
             self.connected = False
             self.fail_send = False
+            self.close_raises = False     # like TransportTCP.close() after a connection reset
 
         def requires_length_header(self):
             return self.lenreq
@@ -196,6 +197,8 @@ def make_transport_class():
 
         async def close(self):
             self.closed += 1
+            if self.close_raises:
+                raise ConnectionResetError('connection reset by peer')
 
         # harness side
         def inject(self, data):
